@@ -1,7 +1,7 @@
 """C15 - BIP38: fresh entropy for new keys; decrypt only with the right passphrase."""
 CONTRACT_MODULES = ['contracts.keys_hd', 'contracts.bip38']
 CONTRACTS = ['bitcoinlib.keys.bip38_intermediate_password[fresh-salt]', 'bitcoinlib.keys.bip38_create_new_encrypted_wif[fresh-seed-native]',
-             'bitcoinlib.keys.Key.encrypt[roundtrip-native]', 'bitcoinlib.keys.bip38_intermediate_password[spec-no-lot]',
+             'bitcoinlib.keys.Key.encrypt[roundtrip-native]', 'bitcoinlib.keys.Key.encrypt[plain-mode-spec-native]', 'bitcoinlib.keys.bip38_intermediate_password[spec-no-lot]',
              'bitcoinlib.keys.bip38_intermediate_password[spec-lot]', 'bitcoinlib.keys.bip38_create_new_encrypted_wif[ec-multiplied-roundtrip-native]']
 LEVEL = 'proof'
 LEVEL_TEXT = ('FRESHNESS is decided deductively: (1) for every function of keys.py / encoding.py / mnemonic.py that has default arguments, the '
